@@ -479,6 +479,21 @@ class Evaluator:
         return None
 
     def ev_match(self, e, ctx):
+        if e.get('src') == 'Normal' and len(e['arms']) == 2 and (e['scrut'].get('ty') == 'bool') and not any(a.get('guard') for a in e['arms']):
+            # `match cond { true => a, false => b }` (or with a wildcard second arm) is `if cond { a } else { b }`
+            def bval(p):
+                if p.get('k') == 'const' and p.get('ty') == 'bool' and p.get('v') in ('true', 'false'):
+                    return p['v'] == 'true'
+                if p.get('k') in ('lit',) and isinstance(p.get('v'), bool):
+                    return p['v']
+                if p.get('k') == 'wild':
+                    return None
+                return 'no'
+            b0, b1 = bval(e['arms'][0]['pat']), bval(e['arms'][1]['pat'])
+            if b0 in (True, False) and (b1 is None or b1 == (not b0)):
+                then = e['arms'][0]['body'] if b0 else e['arms'][1]['body']
+                els = e['arms'][1]['body'] if b0 else e['arms'][0]['body']
+                return self.ev_if({'k': 'if', 'cond': e['scrut'], 'then': then, 'else': els, 'loc': e.get('loc')}, ctx)
         sv, ts = self.ev(e['scrut'], ctx)
         if e['src'] == 'ForLoopDesugar' and len(e['arms']) == 1:
             src = strip(sv)
@@ -780,7 +795,8 @@ class Evaluator:
         # a crate-private free function that takes neither the output nor the input but has effects of its own
         # (allocation, ownership transfers, unsafe operations, panics): part of its caller for every path rule
         if hf is not None and hf.get('thir') and not (passes or passes_sink) and ctx.depth < MAX_DEPTH and not e['trait'] and \
-                hf.get('kind') == 'Fn' and hf.get('vis') != 'Public' and not hf.get('impl') and f not in getattr(self, '_pure_helpers', set()) and \
+                ((hf.get('kind') == 'Fn' and not hf.get('impl')) or (hf.get('kind') == 'AssocFn' and hf.get('ctx') == 'inherent_impl')) and \
+                hf.get('vis') not in ('Public', None) and f not in getattr(self, '_pure_helpers', set()) and \
                 getattr(self, 'inline_effectful', True):
             sub = Ctx(self, hf, ctx.depth + 1)
             sub.sinks = ctx.sinks
@@ -793,7 +809,7 @@ class Evaluator:
             if m:
                 t2 = subst_types(t2, m)
                 v2 = subst_types(v2, m)
-            if any(x[0] in ('ALLOC', 'OWN', 'MUTCALL', 'PANIC', 'HOOK', 'DESC', 'ASC') for x in walk(t2)):
+            if any(x[0] in ('ALLOC', 'OWN', 'MUTCALL', 'PANIC', 'HOOK', 'DESC', 'ASC', 'SET') for x in walk(t2)):
                 return (v2, cat(pre, ['HELPER', tname(f), t2]))
             if not hasattr(self, '_pure_helpers'):
                 self._pure_helpers = set()
